@@ -42,7 +42,8 @@ ASSUMPTIONS = ['POSIX semantics of rename (atomic replace), link (EEXIST), open(
 SELFTEST_MUTANT = 'drop-fsync'
 REQUIRED_PROBES = ['crash_between_link_and_unlink', 'crash_with_bytes_only_in_user_buffer',
                    'crash_with_strict_prefix_in_part_file', 'flush_needed_multiple_raw_writes',
-                   'power_loss_drops_unsynced_tail', 'crash_after_publish', 'recovery_with_part_hardlinked_to_dest']
+                   'power_loss_drops_unsynced_tail', 'crash_after_publish', 'recovery_with_part_hardlinked_to_dest',
+                   'body_interrupted_by_baseexception']
 
 
 def fidelity_selftest(seed, n=300):
@@ -88,6 +89,10 @@ def setup(root):
 def gen_case(rng, tier):
     case = S.gen_workload(rng, faults=False)
     case['power_seed'] = rng.getrandbits(32)
+    if case['body'] and rng.random() < 0.08:
+        # the process is told to die while the body runs: KeyboardInterrupt / SystemExit unwind the with-block
+        case['body'] = list(case['body'])
+        case['body'].insert(rng.randint(0, len(case['body'])), ['raise', 'base'])
     if rng.random() < 0.3:
         # recovery workload: an earlier save to the same destination died mid-way
         first = S.gen_workload(rng, faults=False)
@@ -226,6 +231,11 @@ def run_case(case):
         old = w.pre_state['dest']           # what the earlier saves of the same object left
         out.probe('saver_instance_reused')
     new = S.new_content(case)
+    interrupted = S.body_raises(case)
+    if interrupted:
+        # the process is being torn down inside the with-block (KeyboardInterrupt / SystemExit): the only
+        # complete new content is ALL the writes of the body, so a published prefix is a partial file
+        new = S.full_content(case)
     env_fail = bool(case.get('env')) and not case.get('overwrite', True)
     if prior:
         dest_exists = prior_dest_exists
@@ -239,7 +249,18 @@ def run_case(case):
     N = base.sim.n
     out.steps = N
     # ---- fault-free run: A4, A2, A3 ------------------------------------------------------
-    if base.exc is not None and not (refused and isinstance(base.exc, OSError)):
+    if interrupted and not (refused and isinstance(base.exc, OSError)):
+        got = base.fs.read_path(dest)
+        if not isinstance(base.exc, S.BodyAbort):
+            out.fail('unexpected-exception', N, 'the body was interrupted by BodyAbort (a BaseException), the with-block '
+                     'ended with %r' % (base.exc,), phase='interrupted')
+        elif not _allowed(got, old, new):
+            out.fail('partial-dest-after-interrupted-body', N, 'the body was interrupted after %d of its %d steps; the destination '
+                     'now holds %s; old %s, complete new %s'
+                     % (S.steps_before_raise(case), len(case['body']) - 1, _fmt(got), _fmt(old), _fmt(new)), phase='interrupted')
+        else:
+            out.probe('body_interrupted_by_baseexception')
+    elif base.exc is not None and not (refused and isinstance(base.exc, OSError)):
         out.fail('unexpected-exception', N, 'fault-free save raised %r' % (base.exc,), phase='fault-free')
     elif refused:
         if base.exc is None:
